@@ -787,6 +787,12 @@ fn main() {
             mk("small-then-large", vec![W(11), W(65495 + 3515)]),
         ];
         let pools = [2usize, 1, 3];
+        // finish() called again after an error: also directly after a failed flush with nothing staged
+        let scripts_fae = vec![
+            mk("3-flushes", vec![W(5), F, W(5), F, W(1)]),
+            mk("staging-full", vec![W(65496), W(5)]),
+            mk("flush-last", vec![W(5), F, W(5), F]),
+        ];
 
         // W1: schedules without faults, preemption bound 2 (quick) / 3 (thorough)
         let wb = ctx.by_tier(2, 3);
@@ -809,7 +815,7 @@ fn main() {
         // W3: keep calling finish() after an error was already returned (D6 family)
         ctx.harness(Config::new("writer_finish_after_error", ctx.by_tier(2, 3)), |ch| {
             ALL_KINDS.with(|k| k.set(false));
-            writer_body(ch, &scripts_q[..2], &pools[..2], &[WEnd::FinishAfterError], true, CostModel::Preempt)
+            writer_body(ch, &scripts_fae, &pools[..2], &[WEnd::FinishAfterError], true, CostModel::Preempt)
         });
         // W1b: the largest pool size the statement names (window = 16 tickets): nothing may depend on it
         ctx.harness(Config::new("writer_pool16", ctx.by_tier(1, 2)), |ch| {
